@@ -3,21 +3,22 @@
   Only property theorems, non-vacuity examples and counter-example witnesses live here.
 -/
 import SqlglotModel.Proofs.Schema
+import SqlglotModel.Proofs.SchemaMemo
 import SqlglotModel.Generated.C18
 
 namespace SqlglotModel.Properties.C18
 open SqlglotModel.Schema SqlglotModel.Ident
 
-/-- one API call keeps the invariant (with the eviction the source performs today: clear everything) -/
-theorem step_inv (S : St) (hS : Inv S) (op : Op) : Inv (step .all S op).1 := by
+/-- one API call (on normalised arguments) keeps the invariant, with today's eviction (clear everything) -/
+theorem stepN_inv (E : Env) (S : St) (hS : Inv E S) (op : NOp) : Inv E (stepN E .all S op).1 := by
   cases op with
-  | addTable st norm table cols =>
-    simp only [step]
+  | addTable nt ncols =>
+    simp only [stepN]
     split
     · exact hS
-    · have hI := find_inv S hS (normTable st norm table) false false
-      have hM := find_mapping S (normTable st norm table) false false
-      generalize hf : find S (normTable st norm table) false false = fr at hI hM
+    · have hI := find_inv E S hS nt false false
+      have hM := find_mapping E S nt false false
+      generalize hf : find E S nt false false = fr at hI hM
       obtain ⟨S1, r⟩ := fr
       simp only at hI hM ⊢
       split
@@ -26,114 +27,217 @@ theorem step_inv (S : St) (hS : Inv S) (op : Op) : Inv (step .all S op).1 := by
         · simp only
           rw [trie_after_set, hI.trie_eq]
         · intro k v h; simp [evict, lookup] at h
-  | columnNames st norm table =>
-    simp only [step, columnNames]
-    have hI := find_inv S hS (normTable st norm table) true false
-    generalize find S (normTable st norm table) true false = fr at hI
-    obtain ⟨S1, r⟩ := fr
-    cases r <;> simpa using hI
-  | columnType st norm table col =>
-    simp only [step]
-    have hI := find_inv S hS (normTable st norm table) false false
-    generalize find S (normTable st norm table) false false = fr at hI
-    obtain ⟨S1, r⟩ := fr
-    cases r <;> simpa using hI
-  | hasColumn st norm table col =>
-    simp only [step]
-    have hI := find_inv S hS (normTable st norm table) false false
-    generalize find S (normTable st norm table) false false = fr at hI
-    obtain ⟨S1, r⟩ := fr
-    cases r <;> simpa using hI
+  | columnNames nt ov =>
+    simp only [stepN, columnNames]
+    exact find_inv E S hS nt true false
+  | columnType nt nc d =>
+    simp only [stepN]
+    exact find_inv E S hS nt false false
+  | hasColumn nt nc =>
+    simp only [stepN]
+    exact find_inv E S hS nt false false
   | find table raise ensure =>
-    simp only [step]
-    exact find_inv S hS table raise ensure
+    simp only [stepN]
+    exact find_inv E S hS table raise ensure
+
+/-- one API call keeps the invariant (with the eviction the source performs today: clear everything) -/
+theorem step_inv (E : Env) (S : St) (hS : Inv E S) (op : Op) : Inv E (step E .all S op).1 :=
+  stepN_inv E S hS (normOp E op)
 
 /-- every reachable state (any history, any length) satisfies the invariant -/
-theorem run_inv (S : St) (hS : Inv S) (ops : List Op) : Inv (run .all S ops) := by
+theorem run_inv (E : Env) (S : St) (hS : Inv E S) (ops : List Op) : Inv E (run E .all S ops) := by
   induction ops generalizing S with
   | nil => simpa [run] using hS
-  | cons op ops ih => simpa [run] using ih _ (step_inv S hS op)
+  | cons op ops ih => simpa [run] using ih _ (step_inv E S hS op)
 
-/-- what a call answers depends only on mapping and trie once the cache is coherent -/
-theorem answer_eq_of_same_mapping (ev : Evict) (S T : St) (hS : Inv S) (hT : Inv T)
-    (hm : S.mapping = T.mapping) (q : Op) : (step ev S q).2 = (step ev T q).2 := by
+theorem answerN_eq_of_same_mapping (E : Env) (ev : Evict) (S T : St) (hS : Inv E S) (hT : Inv E T)
+    (hm : S.mapping = T.mapping) (q : NOp) : (stepN E ev S q).2 = (stepN E ev T q).2 := by
   have ht : S.trie = T.trie := by rw [hS.trie_eq, hT.trie_eq, hm]
   have hU : ∀ t r, findUncached S t r = findUncached T t r := by
     intro t r; simp [findUncached, hm, ht]
-  have hF : ∀ t r e, (find S t r e).2 = (find T t r e).2 := by
-    intro t r e; rw [find_snd S hS, find_snd T hT, hU]
+  have hF : ∀ t r e, (find E S t r e).2 = (find E T t r e).2 := by
+    intro t r e; rw [find_snd E S hS, find_snd E T hT, hU]
   have hd : depth S = depth T := by simp [depth, hm]
   cases q with
-  | addTable st norm table cols =>
-    simp only [step, hm, hd]
+  | addTable nt ncols =>
+    simp only [stepN, hm, hd]
     split
     · rfl
-    · have := hF (normTable st norm table) false false
-      generalize find S (normTable st norm table) false false = a at this
-      generalize find T (normTable st norm table) false false = b at this
+    · have := hF nt false false
+      generalize find E S nt false false = a at this
+      generalize find E T nt false false = b at this
       obtain ⟨a1, a2⟩ := a; obtain ⟨b1, b2⟩ := b
       simp only at this; subst this
       simp only
       split <;> rfl
-  | columnNames st norm table =>
-    simp only [step, columnNames]
-    have := hF (normTable st norm table) true false
-    generalize find S (normTable st norm table) true false = a at this
-    generalize find T (normTable st norm table) true false = b at this
-    obtain ⟨a1, a2⟩ := a; obtain ⟨b1, b2⟩ := b
-    simp only at this; subst this
-    cases a2 <;> rfl
-  | columnType st norm table col =>
-    simp only [step]
-    have := hF (normTable st norm table) false false
-    generalize find S (normTable st norm table) false false = a at this
-    generalize find T (normTable st norm table) false false = b at this
-    obtain ⟨a1, a2⟩ := a; obtain ⟨b1, b2⟩ := b
-    simp only at this; subst this
-    cases a2 <;> rfl
-  | hasColumn st norm table col =>
-    simp only [step]
-    have := hF (normTable st norm table) false false
-    generalize find S (normTable st norm table) false false = a at this
-    generalize find T (normTable st norm table) false false = b at this
-    obtain ⟨a1, a2⟩ := a; obtain ⟨b1, b2⟩ := b
-    simp only at this; subst this
-    cases a2 <;> rfl
-  | find table raise ensure =>
-    simp only [step]
+  | columnNames nt ov =>
+    simp only [stepN, columnNames]
+    rw [hF, hd]
+  | columnType nt nc d =>
+    simp only [stepN]
     rw [hF]
+  | hasColumn nt nc =>
+    simp only [stepN]
+    rw [hF]
+  | find table raise ensure =>
+    simp only [stepN]
+    rw [hF]
+
+/-- what a call answers depends only on mapping and trie once the cache is coherent -/
+theorem answer_eq_of_same_mapping (E : Env) (ev : Evict) (S T : St) (hS : Inv E S) (hT : Inv E T)
+    (hm : S.mapping = T.mapping) (q : Op) : (step E ev S q).2 = (step E ev T q).2 :=
+  answerN_eq_of_same_mapping E ev S T hS hT hm (normOp E q)
 
 /-- **C18 (refinement).** After any history of `add_table`s and lookups, every call answers exactly as a
     schema freshly built from the final mapping (empty caches, trie rebuilt) answers. -/
-theorem schema_refines_fresh (S0 : St) (h0 : Inv S0) (ops : List Op) (q : Op) :
-    (step .all (run .all S0 ops) q).2 = (step .all (fresh (run .all S0 ops)) q).2 :=
-  answer_eq_of_same_mapping .all _ _ (run_inv S0 h0 ops) (fresh_inv _) rfl q
+theorem schema_refines_fresh (E : Env) (S0 : St) (h0 : Inv E S0) (ops : List Op) (q : Op) :
+    (step E .all (run E .all S0 ops) q).2 = (step E .all (fresh (run E .all S0 ops)) q).2 :=
+  answer_eq_of_same_mapping E .all _ _ (run_inv E S0 h0 ops) (fresh_inv E _) rfl q
 
 /-- a concrete history (non-vacuity of the hypotheses, and the template the failing-input search replays):
     schema {db: {t: {a: INT}}}; `column_names("t")`; `add_table("db2.t", {b: INT})`; `column_names("t")`. -/
 def witnessStart : St := fresh ⟨[(["db", "t"], [("a", "INT")])], [], []⟩
+def dflt : DialectRef := ⟨"", ⟨.lowercase, false⟩⟩
+def envA : Env := ⟨asciiFns, fun _ t => t, dflt, true, fun _ => none⟩
 def witnessOps : List Op :=
-  [ .columnNames .lowercase true [⟨"t", false⟩],
-    .addTable .lowercase true [⟨"db2", false⟩, ⟨"t", false⟩] [(⟨"b", false⟩, "INT")] ]
-def witnessQuery : Op := .columnNames .lowercase true [⟨"t", false⟩]
+  [ .columnNames dflt true [⟨"t", false⟩] false,
+    .addTable dflt true [⟨"db2", false⟩, ⟨"t", false⟩] [(⟨"b", false⟩, "INT")] ]
+def witnessQuery : Op := .columnNames dflt true [⟨"t", false⟩] false
 
-example : Inv witnessStart := fresh_inv _
+example : Inv envA witnessStart := fresh_inv _ _
 
 /-- with today's eviction the late lookup reports the ambiguity, exactly like a fresh schema -/
 theorem witness_ok_with_clear :
-    (step .all (run .all witnessStart witnessOps) witnessQuery).2 = .err .ambiguous := by decide +kernel
+    (step envA .all (run envA .all witnessStart witnessOps) witnessQuery).2 = .err .ambiguous := by decide +kernel
 
 /-- **why the eviction must be total**: with the pre-repair policy (evict only the added table's own two
     keys) the same history answers with the stale column list, while a fresh schema reports the ambiguity. -/
 theorem stale_partial_lookup_witness :
-    (step .exactKeys (run .exactKeys witnessStart witnessOps) witnessQuery).2 = .names ["a"] ∧
-    (step .exactKeys (fresh (run .exactKeys witnessStart witnessOps)) witnessQuery).2 = .err .ambiguous := by
+    (step envA .exactKeys (run envA .exactKeys witnessStart witnessOps) witnessQuery).2 = .names ["a"] ∧
+    (step envA .exactKeys (fresh (run envA .exactKeys witnessStart witnessOps)) witnessQuery).2 = .err .ambiguous := by
   decide +kernel
 
 /-- the constructor's state is a legal start: any mapping with its trie and empty caches -/
-theorem init_inv (m : List (Path × Cols)) : Inv (fresh ⟨m, [], []⟩) := fresh_inv _
+theorem init_inv (E : Env) (m : List (Path × Cols)) : Inv E (fresh ⟨m, [], []⟩) := fresh_inv _ _
 
 /-- the source's eviction policy, as extracted by the translator on this run, is the one the theorem is about -/
 theorem generated_policy_ok : SqlglotModel.Generated.C18.evictionPolicy = Evict.all := by decide +kernel
+
+/-! ## The memo tables in front of the normalisation and type-parsing functions -/
+
+section Memo
+open SqlglotModel.Generated.C18
+
+/-- **memo_transparent.** A memo table never changes any answer, for every history of calls, as soon as every
+    input that maps to the key an entry is stored under has the stored value (`hstore`; for an ordinary cache
+    `storeKey x _ = key x` and this says: the key determines the result). -/
+theorem memo_transparent {ι κ β : Type} [DecidableEq κ] (key : ι → κ) (storeKey : ι → β → κ) (consult : ι → Bool)
+    (g : ι → β) (truthy : β → Bool) (hstore : ∀ x y, key y = storeKey x (g x) → g y = g x)
+    (m : List (κ × β)) (hm : MemoInv key g m) (xs : List ι) (x : ι) :
+    (memoCall key storeKey consult g truthy (memoRun key storeKey consult g truthy m xs) x).2 = g x :=
+  memoCall_snd key storeKey consult g truthy _ (memoRun_inv key storeKey consult g truthy hstore m hm xs) x
+
+example : MemoInv (fun (n : Nat) => n % 2) (fun n => n % 2 == 0) [] := memoInv_nil _ _
+
+/-- the model's name normalisation reads nothing beyond what the translator found the source passing to
+    `normalize_name` (a model-side obligation: it fails if the source stops passing one of them) -/
+theorem name_compute_reads_only (f : CaseFns) (x y : NameIn)
+    (h : ∀ fld ∈ nameCacheReads, NameIn.proj fld x = NameIn.proj fld y) : nameCompute f x = nameCompute f y := by
+  have h1 := h .name (by decide)
+  have h2 := h .quoted (by decide)
+  have h3 := h .dialect (by decide)
+  have h4 := h .isTable (by decide)
+  have h5 := h .normalize (by decide)
+  obtain ⟨a1, a2, a3, a4, a5⟩ := x
+  obtain ⟨b1, b2, b3, b4, b5⟩ := y
+  simp only [NameIn.proj, FVal.s.injEq, FVal.b.injEq, FVal.d.injEq] at h1 h2 h3 h4 h5
+  subst h1 h2 h3 h4 h5
+  rfl
+
+/-- a key layout that covers the inputs read determines the result -/
+theorem name_key_determines (f : CaseFns) (layout : List NField) (hc : covers layout nameCacheReads = true)
+    (x y : NameIn) (hk : nameKey layout x = nameKey layout y) : nameCompute f x = nameCompute f y :=
+  name_compute_reads_only f x y (fun fld hf => key_fields NameIn.proj layout x y hk fld (covers_mem hc fld hf))
+
+/-- `_normalized_name_cache` is transparent for every history, for every covering key layout -/
+theorem name_cache_transparent (f : CaseFns) (layout : List NField) (hc : covers layout nameCacheReads = true)
+    (xs : List NameIn) (x : NameIn) : (nameCall f layout (nameRun f layout [] xs) x).2 = nameCompute f x :=
+  memo_transparent (nameKey layout) (fun x _ => nameKey layout x) (fun _ => true) (nameCompute f) (fun r => r != "")
+    (fun x y hk => name_key_determines f layout hc y x hk) [] (memoInv_nil _ _) xs x
+
+/-- the key tuple the source builds today covers every input of the computation (finite check, decided completely) -/
+theorem generated_name_cache_key_ok : covers nameCacheKey nameCacheReads = true := by decide
+
+def bq : DialectRef := ⟨"bigquery", ⟨.caseInsensitive, true⟩⟩
+def pg : DialectRef := ⟨"postgres", ⟨.lowercase, false⟩⟩
+
+/-- why `quoted` must be in the key: `"Foo"` (quoted Identifier) then `Foo` (unquoted) answers `Foo`, not `foo` -/
+theorem name_cache_key_needs_quoted :
+    (nameCall asciiFns [.name, .dialect, .isTable, .normalize]
+      (nameRun asciiFns [.name, .dialect, .isTable, .normalize] [] [⟨"Foo", true, pg, false, true⟩])
+      ⟨"Foo", false, pg, false, true⟩).2 = "Foo" ∧
+    nameCompute asciiFns ⟨"Foo", false, pg, false, true⟩ = "foo" := by decide +kernel
+
+/-- why `is_table` must be in the key (BigQuery): table key `Foo` then column `Foo` answers `Foo`, not `foo` -/
+theorem name_cache_key_needs_is_table :
+    (nameCall asciiFns [.name, .quoted, .dialect, .normalize]
+      (nameRun asciiFns [.name, .quoted, .dialect, .normalize] [] [⟨"Foo", false, bq, true, true⟩])
+      ⟨"Foo", false, bq, false, true⟩).2 = "Foo" ∧
+    nameCompute asciiFns ⟨"Foo", false, bq, false, true⟩ = "foo" := by decide +kernel
+
+theorem table_compute_reads_only (f : CaseFns) (x y : TableIn)
+    (h : ∀ fld ∈ tableCacheReads, TableIn.proj fld x = TableIn.proj fld y) : tableCompute f x = tableCompute f y := by
+  have h1 := h .table (by decide)
+  have h2 := h .dialect (by decide)
+  have h3 := h .normalize (by decide)
+  simp only [TableIn.proj, FVal.t.injEq, FVal.b.injEq, FVal.d.injEq] at h1 h2 h3
+  simp [tableCompute, h1, h2, h3]
+
+/-- `_normalized_table_cache` (entries stored under the NORMALISED table) is transparent for every history:
+    needs the key to cover the inputs and normalisation to be idempotent -/
+theorem table_cache_transparent (f : CaseFns) (hf : f.Ok) (layout : List TField)
+    (hc : covers layout tableCacheReads = true) (xs : List TableIn) (x : TableIn) :
+    (tableCall f layout (tableRun f layout [] xs) x).2 = tableCompute f x := by
+  refine memo_transparent (tableKey layout) _ _ (tableCompute f) _ ?_ [] (memoInv_nil _ _) xs x
+  intro x y hk
+  have h := table_compute_reads_only f y { x with table := tableCompute f x }
+    (fun fld hfld => key_fields TableIn.proj layout _ _ hk fld (covers_mem hc fld hfld))
+  rw [h]
+  simp [tableCompute, normTable_idem f hf]
+
+example : CaseFns.Ok ⟨id, id⟩ := ⟨fun _ => rfl, fun _ => rfl⟩
+
+theorem generated_table_cache_key_ok : covers tableCacheKey tableCacheReads = true := by decide
+
+theorem type_parse_reads_only (tbl : String → String → String) (x y : TypeIn)
+    (h : ∀ fld ∈ typeCacheReads, TypeIn.proj fld x = TypeIn.proj fld y) : tyParse tbl x = tyParse tbl y := by
+  have h1 := h .tyStr (by decide)
+  have h2 := h .dialect (by decide)
+  obtain ⟨a1, a2⟩ := x
+  obtain ⟨b1, b2⟩ := y
+  simp only [TypeIn.proj, FVal.s.injEq, FVal.d.injEq] at h1 h2
+  subst h1 h2
+  rfl
+
+/-- `_type_mapping_cache` is transparent for every history IF its key covers (type text, dialect) -/
+theorem type_cache_transparent (tbl : String → String → String) (layout : List YField) (hc : covers layout typeCacheReads = true)
+    (xs : List TypeIn) (x : TypeIn) : (typeCall tbl layout (typeRun tbl layout [] xs) x).2 = tyParse tbl x :=
+  memo_transparent (typeKey layout) (fun x _ => typeKey layout x) (fun _ => true) (tyParse tbl) (fun _ => true)
+    (fun x y hk => type_parse_reads_only tbl y x
+      (fun fld hfld => key_fields TypeIn.proj layout _ _ hk fld (covers_mem hc fld hfld))) [] (memoInv_nil _ _) xs x
+
+/-- **the key the source uses today (type text only) is NOT enough**: `FLOAT` asked under BigQuery, then under
+    Postgres, answers BigQuery's type (known finding C18-type-cache-dialect; the repair adds the dialect) -/
+theorem type_cache_stale_witness :
+    let tbl := tyOfTable [(("bigquery", "FLOAT"), "FLOAT"), (("postgres", "FLOAT"), "DOUBLE")]
+    (typeCall tbl [.tyStr] (typeRun tbl [.tyStr] [] [⟨"FLOAT", bq⟩]) ⟨"FLOAT", pg⟩).2 = "FLOAT" ∧
+    tyParse tbl ⟨"FLOAT", pg⟩ = "DOUBLE" := by decide +kernel
+
+/-- the layout found in the source is either the known-defective one (reported through the known finding) or a
+    covering one (after the repair); any other key breaks the build -/
+theorem generated_type_cache_key_known :
+    typeCacheKey = [.tyStr] ∨ covers typeCacheKey typeCacheReads = true := by decide
+
+end Memo
 
 end SqlglotModel.Properties.C18
